@@ -182,10 +182,14 @@ impl<T> RawAtomic<T> {
     }
 
     pub fn load<'g>(&self, order: Ordering, _: &'g Guard) -> RawShared<'g, T> {
+        #[cfg(feature = "circ_verif")]
+        crate::verif::yp(crate::verif::site::RAW_LOAD, &self.inner as *const _ as usize);
         RawShared::from(self.inner.load(order))
     }
 
     pub fn store(&self, val: RawShared<'_, T>, order: Ordering) {
+        #[cfg(feature = "circ_verif")]
+        crate::verif::yp2(crate::verif::site::RAW_STORE, &self.inner as *const _ as usize, val.inner.verif_word(), 0);
         self.inner.store(val.inner, order);
     }
 
@@ -197,6 +201,8 @@ impl<T> RawAtomic<T> {
         failure: Ordering,
         _: &'g Guard,
     ) -> Result<RawShared<'g, T>, RawShared<'g, T>> {
+        #[cfg(feature = "circ_verif")]
+        crate::verif::yp2(crate::verif::site::RAW_CAS, &self.inner as *const _ as usize, current.inner.verif_word(), new.inner.verif_word());
         self.inner
             .compare_exchange(current.inner, new.inner, success, failure)
             .map(RawShared::from)
@@ -211,6 +217,8 @@ impl<T> RawAtomic<T> {
         failure: Ordering,
         _: &'g Guard,
     ) -> Result<RawShared<'g, T>, RawShared<'g, T>> {
+        #[cfg(feature = "circ_verif")]
+        crate::verif::yp2(crate::verif::site::RAW_CAS_WEAK, &self.inner as *const _ as usize, current.inner.verif_word(), new.inner.verif_word());
         self.inner
             .compare_exchange_weak(current.inner, new.inner, success, failure)
             .map(RawShared::from)
@@ -218,6 +226,8 @@ impl<T> RawAtomic<T> {
     }
 
     pub fn fetch_or<'g>(&self, tag: usize, order: Ordering, _: &'g Guard) -> RawShared<'g, T> {
+        #[cfg(feature = "circ_verif")]
+        crate::verif::yp2(crate::verif::site::RAW_FETCH_OR, &self.inner as *const _ as usize, tag, 0);
         // HACK: The size and alignment of `Atomic<TaggedCnt<T>>` will be same with `AtomicUsize`.
         // The equality of the sizes is checked by `const_assert!`.
         let inner = unsafe { &*(&self.inner as *const _ as *const AtomicUsize) };
